@@ -282,6 +282,56 @@ def gen_queries(rng, vcf, n=None):
     return qs
 
 
+def gen_cache_key_case(rng):
+    """cache-key sensitivity: two (or three) cached runs on the same VCF and cache directory whose settings differ
+    minimally in ONE thing the cached table depends on - one alt or one ref of an ignored conversion, one selected
+    sample, phased - and which query every site with every base, so a cache file shared by mistake shows up"""
+    samples = ['S1', 'S2', 'S3']
+    contigs = rng.sample(['chr1', 'chr2', 'chr3', 'X'], rng.choice([1, 2]))
+    records = []
+    for c in contigs:
+        pos = 0
+        for ref in rng.sample(BASES, rng.choice([2, 3, 4])):
+            for alt in rng.sample([b for b in BASES if b != ref], rng.choice([1, 2, 3])):
+                pos += rng.randint(1, 3)
+                g = [[0], [1], [rng.choice([0, 1]), rng.choice([0, 1])]]
+                rng.shuffle(g)
+                records.append({'chrom': c, 'pos': pos, 'ref': ref, 'alts': [alt], 'gts': g, 'sep': '|'})
+    vcf = {'contigs': contigs, 'samples': samples, 'records': records}
+    qs = []
+    for r in records:
+        for b in (r['ref'], r['alts'][0]):
+            qs.append([0, r['chrom'], r['pos'] - 1, b])
+        if rng.random() < 0.3:
+            qs.append([1, r['chrom'], r['pos'] - 1])
+    rng.shuffle(qs)
+    base = {'phased': True, 'select': None, 'ignore': None, 'lazy': rng.random() < 0.7, 'cache': True, 'chrom': None}
+    kind = rng.choice(['alt', 'alt', 'alt', 'ref', 'subset', 'select', 'phased', 'extra'])
+    r = rng.choice(records)
+    ref, alt = r['ref'], r['alts'][0]
+    other_alt = rng.choice([b for b in BASES if b not in (ref, alt)])
+    other_ref = rng.choice([b for b in BASES if b not in (ref, alt)])
+    a, b = dict(base), dict(base)
+    if kind == 'alt':            # same ref, other alt
+        a['ignore'], b['ignore'] = [[ref, alt]], [[ref, other_alt]]
+    elif kind == 'ref':          # same alt, other ref
+        a['ignore'], b['ignore'] = [[ref, alt]], [[other_ref, alt]]
+    elif kind == 'subset':       # one conversion more
+        a['ignore'], b['ignore'] = [[ref, alt]], [[ref, alt], [ref, other_alt]]
+    elif kind == 'extra':        # the TAPS pair against one of its halves
+        a['ignore'], b['ignore'] = [['C', 'T'], ['G', 'A']], [['C', 'T']]
+    elif kind == 'select':
+        a['select'], b['select'] = ['S1', 'S2'], ['S1', 'S3']
+    else:
+        b['phased'] = False
+    if rng.random() < 0.5:
+        a, b = b, a
+    hist = [{'cfg': a, 'queries': qs}, {'cfg': b, 'queries': qs}]
+    if rng.random() < 0.4:
+        hist.append({'cfg': dict(a, lazy=True), 'queries': qs})
+    return {'vcf': vcf, 'history': hist}
+
+
 def gen_case(rng, big=False):
     vcf = gen_vcf(rng, big)
     style = rng.random()
@@ -454,6 +504,7 @@ class Prop(fw.PropBase):
         corpus = self.corpus_cases()
         rnd = [gen_case(self.rng) for _ in range(260 if quick else 18000)]
         rnd += [gen_case(self.rng, big=True) for _ in range(6 if quick else 400)]
+        rnd += [gen_cache_key_case(self.rng) for _ in range(60 if quick else 1200)]
         exh = exhaustive_cases(self.rng, limit=(160 if quick else None))
         return corpus, rnd, exh
 
@@ -510,6 +561,7 @@ class Prop(fw.PropBase):
                     'queried (contig,pos) carries at least one VCF record; distinct by hash of (records at the site, all '
                     'constructor settings incl. mode flags, position/base/kind of the query, sample header)',
             'cases': len(cases), 'corpus_cases': len(corpus), 'random_cases': len(rnd), 'small_scope_cases': len(exh),
+            'cache_key_sensitivity_cases': 60 if self.tier == 'quick' else 1200,
             'runs': sum(len(c['history']) for c in cases),
             'histogram_modes': hist_modes, 'histogram_selection': hist_sel, 'histogram_ignore': hist_ign,
             'histogram_expected_answer': hist_ans,
